@@ -22,8 +22,11 @@
 package dispatchcloud
 
 import (
+	"errors"
 	"fmt"
 	"os"
+	"reflect"
+	"regexp"
 	"sort"
 	"testing"
 
@@ -136,6 +139,36 @@ func vNSIndex(name string, n int) int {
 	return k
 }
 
+// vNSListedTypes finds, in err or any error it wraps, a struct (or pointer to one) with a field of
+// type []arvados.InstanceType and returns the names listed there.
+func vNSListedTypes(err error) ([]string, bool) {
+	for e := err; e != nil; e = errors.Unwrap(e) {
+		v := reflect.ValueOf(e)
+		for v.Kind() == reflect.Ptr || v.Kind() == reflect.Interface {
+			if v.IsNil() {
+				break
+			}
+			v = v.Elem()
+		}
+		if v.Kind() != reflect.Struct {
+			continue
+		}
+		for i := 0; i < v.NumField(); i++ {
+			if v.Type().Field(i).PkgPath != "" {
+				continue // unexported
+			}
+			if its, ok := v.Field(i).Interface().([]arvados.InstanceType); ok {
+				names := []string{}
+				for _, it := range its {
+					names = append(names, it.Name)
+				}
+				return names, true
+			}
+		}
+	}
+	return nil, false
+}
+
 func TestVerifC16NodeSize(t *testing.T) {
 	var scns []*vNSScenario
 	vReadNDJSON(os.Getenv("VERIF_SCENARIOS"), func() interface{} {
@@ -162,21 +195,33 @@ func TestVerifC16NodeSize(t *testing.T) {
 				if k := vNSIndex(best.Name, len(s.Types)); k > 0 && cc.InstanceTypes[best.Name] == best {
 					ev["pick"] = k
 				}
-			} else if e, ok := err.(ConstraintsNotSatisfiableError); ok {
-				ev["kind"] = "unsat"
+			} else {
+				ev["kind"] = "other"
 				seen := map[int]bool{}
 				listed := []int{}
-				for _, it := range e.AvailableTypes {
-					k := vNSIndex(it.Name, len(s.Types))
-					if !seen[k] {
-						seen[k] = true
-						listed = append(listed, k)
+				if names, ok := vNSListedTypes(err); ok {
+					// the error carries a list of instance types (whatever its concrete type)
+					ev["kind"] = "unsat"
+					for _, name := range names {
+						k := vNSIndex(name, len(s.Types))
+						if !seen[k] {
+							seen[k] = true
+							listed = append(listed, k)
+						}
+					}
+				} else {
+					// ... or at least names them in its message
+					for k := range s.Types {
+						if regexp.MustCompile(`\bt` + fmt.Sprint(k+1) + `\b`).MatchString(err.Error()) {
+							listed = append(listed, k+1)
+						}
+					}
+					if len(listed) > 0 {
+						ev["kind"] = "unsat-message"
 					}
 				}
 				sort.Ints(listed)
 				ev["listed"] = listed
-			} else {
-				ev["kind"] = "other"
 			}
 			tw.Write(ev)
 		}
